@@ -24,7 +24,7 @@ ASSUMPTIONS = [
 ]
 BUDGET = {
     "quick": {"examples": 400, "workers": 8, "time_cap": 70},
-    "thorough": {"examples": 15000, "workers": 14, "time_cap": 1500},
+    "thorough": {"examples": 15000, "workers": 14, "time_cap": 900},
 }
 GRID_DESC = "single-file hybrids over sizes k*B+d, k*P+d (k<=6 quick / 17 thorough) x P x both creators"
 
